@@ -61,6 +61,40 @@ def run_hooks_case(case):
         shutil.rmtree(base, ignore_errors=True)
 
 
+def run_async_lifecycle(worker):
+    import json as _json, os, shutil, subprocess, tempfile
+    base = tempfile.mkdtemp(prefix="verif_life_")
+    try:
+        p = subprocess.run([core.PY, "-m", "harness.life_child", base, worker], env=core.child_env(hooks=True),
+                           capture_output=True, text=True, timeout=900)
+        o = os.path.join(base, "out.json")
+        if not os.path.exists(o):
+            raise core.MachineryError("life_child failed: " + p.stderr[-600:])
+        return _json.load(open(o))
+    finally:
+        shutil.rmtree(base, ignore_errors=True)
+
+
+def judge_async(ctx, worker, recs):
+    """the C35 invariants (CwdRestored, InfoRemoved, DirHasJobAndResult) on the end state of each call of the
+    asynchronous path (Job.run_async; the hook trace of that path is not validated by JobProtocol_Trace, whose
+    Chdir step belongs to the synchronous path)."""
+    want = ["ok", "ok", "raised"]
+    for r, w in zip(recs, want):
+        case = {"async_lifecycle": {"worker": worker, "step": r["step"], "mode": r["mode"]}}
+        if r["status"] != w:
+            ctx.violation(f"workflow call {r['step']+1} ({r['mode']}) ended {r['status']}", case=case, expected=w, observed=r)
+            continue
+        if not r["cwd_restored"]:
+            ctx.violation(f"CwdRestored: after workflow call {r['step']+1} ({r['mode']}, worker {worker}) the process is left in {r['cwd']}",
+                          case=case, expected="cwd restored", observed=r)
+        if r["info_files"]:
+            ctx.violation(f"InfoRemoved: {r['info_files']} left after workflow call {r['step']+1} (worker {worker})", case=case, observed=r)
+        bad = {d: v for d, v in r["dirs"].items() if not (v["job"] and v["res"])}
+        if bad:
+            ctx.violation(f"DirHasJobAndResult: {bad} after workflow call {r['step']+1} (worker {worker})", case=case, observed=r)
+
+
 def run(ctx):
     r = ctx.tlc("MC_JobProtocol", cfg="MC_C35.cfg", workers=8, coverage=True, timeout=1500)
     ctx.require_coverage(r, ["InjectAt", "Release", "RaiseOut", "PreTask", "PostTask"])
@@ -112,6 +146,12 @@ def run(ctx):
         ctx.judge(False, f"exception injected at '{spec['point']}' ({cls}, task {spec['task']}): intended design says {v}; as-built model says {va}",
                   case=case, expected="accepted by JobProtocol (clean-up)", observed="as-built" if ok_known else {"ideal": v, "asbuilt": va, "first": first, "end": o["end"]},
                   known_id="C35-late-try" if ok_known else None, asbuilt="as-built" if ok_known else None)
+    # ---- asynchronous path (workflow job under the cf worker) and the same workflow under debug ----
+    for worker in ("cf", "debug"):
+        recs = run_async_lifecycle(worker)
+        ctx.ran(len(recs))
+        ctx.nontriv(("async", worker))
+        judge_async(ctx, worker, recs)
     # ---- task hooks once per execution, never for a hit ----
     hcases = [{"task": t, "modes": m} for t in ("Work", "Two") for m in (["ok", "ok", "ok"], ["raise", "ok", "ok"], ["raise", "raise", "ok"])]
     res = core.pmap(run_hooks_case, hcases, procs=6, chunksize=1)
@@ -130,6 +170,13 @@ def run(ctx):
 
 def replay(ctx, rec):
     case = rec["case"]
+    if "async_lifecycle" in case:
+        w = case["async_lifecycle"]["worker"]
+        recs = run_async_lifecycle(w)
+        print(recs)
+        ctx.ran()
+        judge_async(ctx, w, recs)
+        return
     if "hooks_case" in case:
         print(run_hooks_case(case["hooks_case"]))
         ctx.ran()
